@@ -260,7 +260,7 @@ func legC03Finder(c *Ctx) {
 			pats = append(pats, patCase{pat: s, alpha: []rune{'a', 'b', 'c', 'd', 'x', '@', '.', '1', ' ', '=', ',', 'A', 'B', '\n', 'é', ';', ':', '-', 'e', 't'}, cg: cg})
 		}
 	}
-	pats = append(pats, genPatterns(c.Rng, c.N(120, 4000), true)...)
+	pats = append(pats, genPatterns(c.Rng, c.N(160, 4000), true)...)
 	seen := map[string]int{}
 	modes := map[string]int{}
 	moved := map[string]int{}
@@ -382,7 +382,7 @@ func c03FinderPattern(c *Ctx, p patCase, re *regexp2.Regexp, tag string, forceAl
 			optimized = true
 		}
 	}
-	budget := c.N(140, 3000)
+	budget := c.N(260, 3000)
 	if !optimized {
 		budget = c.N(40, 400)
 	}
@@ -410,7 +410,7 @@ func c03FinderPattern(c *Ctx, p patCase, re *regexp2.Regexp, tag string, forceAl
 			texts = append(texts, in)
 		}
 		if mode == "RequiredLandmarkChain_LeftToRight" || mode == "LiteralAfterLoop_LeftToRight" {
-			for _, s := range []string{"ab@cd.com", "x=12", "ab12cd.ef", "a@b,c", "ab = 12;", "a-b=c", "a b1c", "ab12cd,ef", "q@r.s", "ab  =  7", "abx12yz;yz", "ab42cdyyz", "a1b.c", "xx-yy1zz", "a  = b", " a=b", "a =b", "ab :ba", "a : b", "c-ab=", "ab= c"} {
+			for _, s := range []string{"ab@cd.com", "x=12", "ab12cd.ef", "a@b,c", "ab = 12;", "a-b=c", "a b1c", "ab12cd,ef", "q@r.s", "ab  =  7", "abx12yz;yz", "ab42cdyyz", "a1b.c", "xx-yy1zz", "a  = b", " a=b", "a =b", "ab :ba", "a : b", "c-ab=", "ab= c", "a\t xbc", "abcd", "a  bd", "xa \t xbd", "yabcd", "a   bd"} {
 				texts = append(texts, []rune(s), append([]rune("zz "), []rune(s)...))
 			}
 		}
